@@ -14,6 +14,8 @@ struct lp_state {
 	uint32_t budget;
 	uint32_t limit; /* events handled in total before the LP turns deaf (== budget when absorbing) */
 	uint32_t nbuf;
+	uint32_t skip_chain; /* the next handled event sends nothing: its self-chain event has been sent in advance */
+	uint32_t pad_;
 	uint64_t init_draws[2];
 	struct {
 		unsigned char *p;
